@@ -79,8 +79,8 @@ def run(run):
                 unexplained += 1
                 p.detail["note"] = "race report at accesses the static facts classify as safe (or inside an unanalysed callee)"
     for p in run.problems:
-        if p.kind == "direct" and p.signature in confirmed and isinstance(p.detail, dict):
-            p.detail["confirmed_by_race_detector"] = True
+        if p.kind == "direct" and isinstance(p.detail, dict) and p.signature.startswith("race:"):
+            p.detail["confirmed_by_race_detector"] = p.signature in confirmed
 
     if stats is not None:
         run.cov["evaluations"] = max(run.cov["evaluations"], stats.get("evaluations", 0))
